@@ -1135,6 +1135,31 @@ def rule_r11(ctx):
             )
         else:
             rr.ok(what)
+    # the statement side: a def/class statement picks, among the children of the current namespace,
+    # the one built from ITS symbol table.  Names repeat (redefinitions, property setters, overloads,
+    # conditional definitions); the line of the statement does not, so the match must test it.
+    T = ctx.tmpl
+    for kind in ("FunctionDef", "ClassDef"):
+        entry = T.pending_by_kind(kind)
+        rr.instances += 1
+        bad = None
+        n_ok = 0
+        for pr in entry.ok_paths():
+            n_ok += 1
+            if not any(k.startswith("eq:") and "get_lineno()" in k and f"{kind}.lineno" in k and v is True for k, v in pr.assign.items()):
+                bad = bad or pr
+        what = f"{kind}|namespace-match"
+        if not n_ok:
+            raise AnalysisError(f"C06-R11: no analysable path of Pending{kind}")
+        if bad is not None:
+            tests = sorted(k for k, v in bad.assign.items() if k.startswith("eq:") and "symt" in k and v is True)
+            rr.fail(
+                f"C06-R11|{kind}|namespace-match|line-not-tested",
+                f"Pending{kind}.__init__ selects its internal namespace without comparing the symbol table's line with the statement's (tests: {tests or 'none'}): the second `def f` / `class C` of a scope (a redefinition, a property setter, a conditional definition) is lowered in the namespace of the FIRST",
+                what=what,
+            )
+        else:
+            rr.ok(what, sample={"rule": "C06-R11", "statement": kind, "verdict": "internal namespace matched by line (and name)"})
     return rr
 
 
